@@ -37,11 +37,11 @@ CLAIMED = {
         design="7/C10"),
     "C01": dict(
         text="Coq theorems: per-cell continuity D(Js+Jn) = B mu_boundary for every mesh/psi/links/boundary data whenever the "
-             "linear solve returned a solution (uses L = D.G), total injection = sum len x density, and L_t * density_t = I_t for "
+             "linear solve returned a solution (uses L = D.G) - and, for the solver as coded with the potential fixed at site 0, whenever the rows r <> 0 hold and the injection is balanced (continuity_pinned; the defect of cell 0 is otherwise the whole imbalance) - total injection = sum len x density, and L_t * density_t = I_t for "
              "every balanced assignment; the change-only cache of update_mu_boundary is coherent after any call sequence "
              "(cache_coherent), whichever of CPython's two summation paths runs. Correspondence: update_mu_boundary call "
              "sequences (bit-exact, both summation paths); real TDGLSolver.update calls vs Model.Step.step (psi', Js, Jn, rhs; SuperLU "
-             "contract measured). Oracle on every update of real runs (2-4 terminals, holes, static/ramped field, constant and "
+             "contract measured against the true mesh Laplacian, every row). Oracle on every update of real runs (2-4 terminals, holes, static/ramped field, constant and "
              "time-dependent currents, screening, three current units) and an accept/reject table of balanced assignments.",
         note="Coq kernel; stdlib real-number axioms; SuperLU an oracle with measured contract; terminal membership (matplotlib Path) "
              "taken as data; cache_coherent assumes terminals cover disjoint boundary edges.",
